@@ -806,10 +806,11 @@ func main() {
 	nRand := flag.Int("rand", 200, "random integer/float values per run in addition to the boundary set")
 	nJSON := flag.Int("json", 300, "random json literals in addition to the boundary set")
 	allHalf := flag.Bool("allhalf", false, "sweep all 65536 float16 patterns (cbor)")
+	nSeq := flag.Int("seq", 20, "random sequences per (format, destination) in the sequence stream, besides all ordered pairs of wire representations")
 	elems := flag.Bool("elems", true, "also decode every source as an element of []T, [1]T, map[string]T, map[T]bool and *T")
 	flag.Parse()
 	r := vh.NewRng(vh.SeedFromEnv())
-	sum := vh.NewSummary("cross product: wire representation (every width the value fits in, built byte by byte) x 13 destination kinds x 7 decode paths (builtin *T switch, named type via reflection, element of []T, [1]T, map[string]T, key of map[T]bool, *T: the generated fast paths) x boundary values {0, +-1, +-(2^k-1), +-2^k, +-(2^k+1) for k in 7,8,15,16,31,32,52,53,62,63,64, -2^64, fractions, 1e30, +-Inf, NaN, -0.0, float32/float64 limits, subnormals} plus seeded random values; json: decimal/exponent/fraction literal forms of the same integers and random literals. non-trivial = the destination is not the source's own type/width; distinct by (format, representation, magnitude class, sign, destination, outcome)")
+	sum := vh.NewSummary("cross product: wire representation (every width the value fits in, built byte by byte) x 13 destination kinds x 7 decode paths (builtin *T switch, named type via reflection, element of []T, [1]T, map[string]T, key of map[T]bool, *T: the generated fast paths) x boundary values {0, +-1, +-(2^k-1), +-2^k, +-(2^k+1) for k in 7,8,15,16,31,32,52,53,62,63,64, -2^64, fractions, 1e30, +-Inf, NaN, -0.0, float32/float64 limits, subnormals} plus seeded random values; json: decimal/exponent/fraction literal forms of the same integers and random literals. sequence stream: for every ordered pair of wire representations of a format (every integer width incl. binc 3/5/6/7-byte, floats incl. pruned/half) and random walks, 4-8 numbers decoded one after another on ONE Decoder as a top-level sequence, []T, [k]T and struct fields, from []byte, io.Reader and a one-byte reader, each element judged against math/big and against a fresh Decoder. non-trivial = the destination is not the source's own type/width; distinct by (format, representation, magnitude class, sign, destination, outcome)")
 
 	ints := boundaryInts()
 	floats := boundaryFloats()
@@ -948,6 +949,7 @@ func main() {
 		}
 	}
 	cv.Close()
+	seqStream(sum, r.Fork(), *nSeq)
 	sum.Dist["sources"] = len(seenBytes)
 	sum.Print()
 }
